@@ -32,12 +32,17 @@ def shards(tier, seed):
         out.append({'name': 'h%d' % i, 'what': 'header',
                     'n': 1500 if tier == 'quick' else 150000})
     cfgs = [common.W_ERROR, common.LOG_DEBUG]
+    mm = [{'name': 'mm%d' % i, 'what': 'magic', 'indexes': g}
+          for i, g in enumerate(common.split(common.ALL_INDEXES, 16))]
     return common.with_configs(out, cfgs, take=12) + \
-        common.with_configs(out[12:13], cfgs, take=1)[1:]
+        common.with_configs(out[12:13], cfgs, take=1)[1:] + mm
 
 
 def cases(shard, rnd):
-    if shard['what'] == 'method':
+    if shard['what'] == 'magic':
+        for idx in shard['indexes']:
+            yield from wire.magic_method_frames(rnd, refspec.METHODS[idx])
+    elif shard['what'] == 'method':
         for idx in shard['indexes']:
             # (Basic.RecoverAsync under -W error is NOT skipped here: the
             # frames are written by the generator, the library only decodes)
